@@ -305,6 +305,13 @@ fn explore_law(run: &'static Run, law: Arc<Law>) {
                         cands.push(norm_params(law, &part));
                     }
                 }
+                // several in-domain tuples can be observationally identical (Binomial(0,0) and
+                // Binomial(1,0)); prefer the one whose twin has the same internal fields
+                for c in &cands {
+                    if accepts(law, c) && (law.make)(c).dbg() == obj.dbg() {
+                        return Some(mkstate(law, obj, c));
+                    }
+                }
                 let obs = observe(&*obj, &law.points);
                 for c in &cands {
                     if accepts(law, c) {
